@@ -86,22 +86,30 @@ def main():
     finally:
         sh("git -C /repo worktree remove --force %s" % wt)
         shutil.rmtree(wt, ignore_errors=True)
-    # run the checks against the patched /repo
-    rc, o = sh("git -C /repo diff --quiet")
+    # run the checks against the patched /repo (or, SEED_REPO set, against that scratch copy of it,
+    # with a replay directory of its own - usable while another evaluation holds /repo)
+    repo = os.environ.get("SEED_REPO") or "/repo"
+    pre = ""
+    if repo != "/repo":
+        pre = "VERIF_REPO=%s VERIF_REPLAYS_ROOT=%s-replays " % (repo, repo)
+    rc, o = sh("git -C %s diff --quiet" % repo)
     if rc != 0:
-        res["error"] = "/repo dirty, not running checks"
+        res["error"] = "%s dirty, not running checks" % repo
         return finish(res, prop, n, patch, demo)
-    rc, o = sh("git -C /repo apply %s" % patch)
+    rc, o = sh("git -C %s apply %s" % (repo, patch))
     res["checks"] = {}
     try:
         for c in checks:
-            cmd = "./check %s" % c + ((" --runs %s" % runs) if runs else "")
+            cmd = pre + "./check %s" % c + ((" --runs %s" % runs) if runs else "")
             rc, o = sh(cmd + " 2>&1 | grep -v '^KNOWN' | grep '^VIOLATION\\|^  C\\|^check\\|^HARNESS' | cut -c1-400 | head -12", cwd="/verif", timeout=3000)
             det = "VIOLATION property=" in o
             res["checks"][c] = {"detected": det, "output": o[-1500:]}
     finally:
-        sh("git -C /repo checkout -- .")
-        sh("rm -rf /verif/replays/C[0-9]*")
+        sh("git -C %s checkout -- ." % repo)
+        if repo == "/repo":
+            sh("rm -rf /verif/replays/C[0-9]*")
+        else:
+            sh("rm -rf %s-replays" % repo)
     return finish(res, prop, n, patch, demo)
 
 def guess_pkg(demo):
@@ -128,4 +136,7 @@ def finish(res, prop, n, patch, demo):
     print(json.dumps({k: v for k, v in res.items() if k not in ("agent_meta", "existing_tests_tail")}, indent=1)[:3000])
 
 if __name__ == "__main__":
-    keep_evidence(main)
+    if os.environ.get("SEED_REPO"):
+        main()  # (evidence is regenerated on the clean tree afterwards; no backup/restore race with the other evaluation)
+    else:
+        keep_evidence(main)
